@@ -157,8 +157,91 @@ def _rtcp(rng, ssrcs):
                               fci=rtp.pack_remb_fci(rng.choice([0, 1000, 1 << 20]), rng.sample(ssrcs, rng.choice([0, 1, 2, 3]))))
 
 
+def RTCPeerConnection(rng, inst):
+    """offer/answer between two real peer connections with randomly damaged descriptions and out-of-order calls;
+    every set*Description passes through __validate_description"""
+    import asyncio
+    from aiortc import RTCPeerConnection as PC, RTCSessionDescription as SD
+
+    def damage(sdp_text):
+        lines = sdp_text.split("\r\n")
+        r = rng.random()
+        if r < 0.15:
+            lines = [l for l in lines if not l.startswith("a=ice-ufrag")]
+        elif r < 0.3:
+            lines = [l for l in lines if not l.startswith("a=ice-pwd")]
+        elif r < 0.4:
+            lines = [l for l in lines if not l.startswith("a=setup")]
+        elif r < 0.5:
+            lines = [l.replace("a=setup:active", "a=setup:actpass").replace("a=setup:passive", "a=setup:actpass") for l in lines]
+        elif r < 0.6:
+            lines = [l for l in lines if l != "a=rtcp-mux"]
+        elif r < 0.75:
+            # drop the last media section
+            idx = [i for i, l in enumerate(lines) if l.startswith("m=")]
+            if len(idx) > 1:
+                lines = lines[:idx[-1]] + [""]
+        elif r < 0.85:
+            idx = [i for i, l in enumerate(lines) if l.startswith("m=")]
+            if idx:
+                sec = lines[idx[-1]:]
+                lines = lines[:-1] + [x.replace("a=mid:", "a=mid:9") for x in sec if x] + [""]
+        return "\r\n".join(lines)
+
+    async def run():
+        a, b = PC(), PC()
+        last = a
+        try:
+            if rng.random() < 0.8:
+                a.createDataChannel("c")
+            if rng.random() < 0.6:
+                a.addTransceiver(rng.choice(["audio", "video"]))
+            if rng.random() < 0.3:
+                a.addTransceiver("audio")
+            steps = rng.choice([1, 2, 3, 4, 5])
+            offer = await a.createOffer()
+            for _ in range(steps):
+                op = rng.random()
+                try:
+                    if op < 0.3:
+                        await a.setLocalDescription(offer)
+                    elif op < 0.55:
+                        txt = a.localDescription.sdp if a.localDescription else offer.sdp
+                        await b.setRemoteDescription(SD(sdp=damage(txt) if rng.random() < 0.5 else txt,
+                                                        type=rng.choice(["offer", "offer", "answer", "pranswer"])))
+                    elif op < 0.8:
+                        ans = await b.createAnswer()
+                        if rng.random() < 0.5:
+                            await b.setLocalDescription(ans)
+                        await a.setRemoteDescription(SD(sdp=damage(ans.sdp) if rng.random() < 0.6 else ans.sdp,
+                                                        type=rng.choice(["answer", "answer", "pranswer", "offer"])))
+                    elif op < 0.9:
+                        await rng.choice([a, b]).close()
+                    else:
+                        await b.setLocalDescription(offer)
+                except Exception:
+                    pass
+        finally:
+            for p in (a, b):
+                try:
+                    await p.close()
+                except Exception:
+                    pass
+        return last
+
+    loop = asyncio.new_event_loop()
+    try:
+        return loop.run_until_complete(asyncio.wait_for(run(), 20))
+    finally:
+        loop.close()
+
+
+class _Stop(Exception):
+    pass
+
+
 def AnyRtcp(rng, inst):
     return _rtcp(rng, [0, 1, 2, 1234, (1 << 32) - 1])
 
 
-BUILDERS = {"RtpRouter": RtpRouter, "NackGenerator": NackGenerator, "JitterBuffer": JitterBuffer, "RtpPacket": RtpPacket}
+BUILDERS = {"RtpRouter": RtpRouter, "RTCPeerConnection": RTCPeerConnection, "NackGenerator": NackGenerator, "JitterBuffer": JitterBuffer, "RtpPacket": RtpPacket}
